@@ -58,8 +58,6 @@ def run(ctx):
     ctx.extra['design_action_coverage'] = SJ.require_coverage(r, ['ToDict', 'FromDict', 'JsonTrip', 'Save', 'Load', 'Sample', 'Query'], ())
     want = []
     for b in B.all_bindings():
-        if b.name == 'GaussianMultivariate3cond':
-            continue
         want.append((b.name, {'setup_past': 1}, plans(b, quick)))
     SJ.run_session_jobs(ctx, 'C14', want, 'harness.props.C14', ('FromDict', 'Load'))
     ctx.exhaustive = False
